@@ -268,7 +268,7 @@ func generate(r *rng.R, thorough bool, index int) *history {
 	}
 	n := 30 + r.Intn(61)
 	if thorough {
-		n = 60 + r.Intn(200)
+		n = 60 + r.Intn(120)
 	}
 	for step := 0; step < n; step++ {
 		// classify live calls
